@@ -47,7 +47,7 @@ def gen_cases(tier, seed):
         ntot = sum(bases.nfunc(s) for s in shells)
         T, tcls = bases.rand_transform(rng, ntot, "none" if i % 3 else None)
         norb = ntot if T is None else len(T)
-        dm, dcls = bases.rand_sym(rng, norb, ["psd", "indef", "psd-lowrank", "diag-indef", "idempotent", "hollow"][i % 6])
+        dm, dcls = bases.rand_sym(rng, norb, "hollow" if (i % 6 == 3 and (i // 6) % 2 == 1) else ["psd", "indef", "psd-lowrank", "diag-indef", "idempotent", "hollow"][i % 6])  # hollow also together with a transformation
         if i % 2 == 0:
             a, b = AB[(i // 2) % len(AB)]
             abcls = "ab:special"
